@@ -214,6 +214,11 @@ func (e *Engine) Run(ops []string, res *report.Result) *report.Failure {
 				default:
 				}
 			}
+			if rr.n < 0 || rr.n > len(rr.buf) {
+				// (io.Reader's contract; every caller slices its buffer with the count)
+				return fail(i, "oracle", "C18", model, fmt.Sprintf("n=%d for a buffer of %d bytes", rr.n, len(rr.buf)),
+					fmt.Sprintf("Read reported %d bytes for a buffer of %d bytes", rr.n, len(rr.buf)))
+			}
 			// also compare the number of chunks still queued (channel + not yet pushed)
 			got := fmt.Sprintf("%s %s q=%d", errKind(rr.err), hx(rr.buf[:rr.n]), len(im.ch)+len(im.pending))
 			want := mf[1] + " " + mf[2] + " " + mf[3]
